@@ -69,17 +69,24 @@ CHECKS = {
     tech="Lean 4 proof (rank-1 update identity; loop invariant by induction on fuel) + kernel-recording correspondence + NumPy oracle",
     ref="§3 C17"),
  "C04": dict(
-    text="Lean 4 theorems (ordered field): the rank chosen by truncated_svd is the least rank whose discarded tail of squared singular "
-         "values is within δ², at least 1, at most rmax and at most the number of singular values (so ranks never rise, rmax is "
-         "honoured); the budget split of round() composes to eps; thresholds re-extracted from the source. Every rank chosen inside "
-         "round_tt/round_tucker/round is compared with rankSelect on the singular values recorded from torch.linalg.svd in-process. "
-         "The error bound itself (relative Frobenius error ≤ eps, all formats, conditioning up to 1e6, both algorithms, rmax) is "
-         "decided by a dense oracle search.",
-    note="PARTIAL: the error-bound theorem (per-step isometry + orthogonality of successive errors + assembly) is an open statement in "
-         "Props/C04.lean; its ingredients L8 (iface_ortho) and L4 (C13) are proved. Trusted: Lean kernel + standard axioms; SVD/eigh "
-         "kernels (answers recorded, not verified); harness glue; sampling; float near-ties between cumsum and δ² are discarded and "
-         "counted. Known findings: tensors of norm < 1e-12 are treated as zero (absolute threshold 1e-13).",
-    tech="Lean 4 proof of the decision logic and budget algebra + kernel-recording correspondence + dense error-bound oracle",
+    text="Lean 4 theorems (ordered field): (1) the full error bound of round_tt's truncation sweep for TT cores and algorithm='svd': "
+         "the squared Frobenius error equals the sum of the discarded tails of all steps (successive truncation errors are orthogonal: "
+         "roundTT_error_eq, by induction over the sweep with a per-step Pythagoras lemma) and is ≤ eps²·‖T‖² when rmax does not bind "
+         "(roundTT_within_eps), with ‖T‖ = ‖last core‖ (norm_on_last_core), given the SVD kernel's contract for every answer; "
+         "(2) the rank chosen by truncated_svd is the least rank whose discarded tail is within δ², ≥ 1, ≤ rmax, ≤ number of singular "
+         "values; the budget split of round() composes to eps; thresholds re-extracted from the source. Tie: the executable sweep "
+         "(Model/RoundTT.sweepRev) is run in the driver on the state entering the real sweep with the SVD answers recorded from "
+         "torch.linalg.svd in-process and compared core-for-core with Tensor.round_tt; the theorem's hypotheses (left-orthonormal "
+         "state, kernel contract) and its conclusion (error² = Σ tails) are validated on every such run; every rank chosen inside "
+         "round_tt/round_tucker/round is compared with rankSelect. The bound for the other formats, round_tucker, round, "
+         "algorithm='eig' and conditioning up to 1e6 is decided by a dense oracle search.",
+    note="PARTIAL: the error theorem covers TT cores without Tucker factors, algorithm='svd', no absolute-zero special case; with "
+         "factors / eig / round_tucker it is an open statement in Props/C04.lean. Trusted: Lean kernel + standard axioms; SVD/eigh "
+         "kernels (answers recorded; contract validated numerically per call, not verified); harness glue; sampling; float near-ties "
+         "between cumsum and δ² are discarded and counted. Known findings: tensors of norm < 1e-12 are treated as zero (absolute "
+         "threshold 1e-13).",
+    tech="Lean 4 proof of the round_tt error bound (Pythagoras over the sweep) and of the rank decision logic + kernel-recording "
+         "core-level correspondence + dense error-bound oracle",
     ref="§3 C04"),
  "C05": dict(
     text="Lean 4 theorems given the SVD kernel contract (M=U·diag S·Vh, UᵀU=I): the right factor truncated_svd computes is diag(S_r)·Vh_r, "
